@@ -225,6 +225,18 @@ func c12Eq(a, b c12Val) (eq, known bool) {
 			if ok1 && ok2 {
 				return ls == rs, true
 			}
+			// a string with a non-empty literal piece is not the empty string (whatever its symbolic pieces hold)
+			nonEmpty := func(z c12Str) bool {
+				for _, p := range z.Parts {
+					if p.Sym == nil && p.Lit != "" {
+						return true
+					}
+				}
+				return false
+			}
+			if (ok1 && ls == "" && nonEmpty(y)) || (ok2 && rs == "" && nonEmpty(x)) {
+				return false, true
+			}
 		}
 	case c12Nil:
 		switch y := b.(type) {
